@@ -907,6 +907,40 @@ fn main() {
     ] {
         programs.push((text.to_owned(), vec![], "for"));
     }
+    // 3c'. FOR loops, systematically: every counter type x every step type, the step given as a literal
+    // and as a variable of that type, starts near the counter type's upper and lower limits and in the
+    // middle, ascending and descending (the increment must be converted back to the counter's type and
+    // raise Overflow when it leaves it; the observer checks the tag and range of every variable)
+    for (cq, starts) in [("%", ["1", "32000", "-32000"]), ("&", ["1", "2147483000", "-2147483000"]), ("!", ["1", "16777000", "-0.5"]), ("#", ["1", "9007199254740000", "-0.5"])] {
+        for sq in ["%", "&", "!", "#"] {
+            for step in ["1", "500", "-500", "3"] {
+                for start in starts {
+                    let down = step.starts_with('-');
+                    let limit = match (cq, down) {
+                        ("%", false) => "32767",
+                        ("%", true) => "-32768",
+                        ("&", false) => "2147483647",
+                        ("&", true) => "-2147483648",
+                        (_, false) => "100000000000000000000",
+                        (_, true) => "-100000000000000000000",
+                    };
+                    // bounded number of iterations: stop after 4 rounds through a guard
+                    let body = format!("N% = N% + 1\nIF N% >= 4 THEN {st} = 0 : C{cq} = {lim}\n", st = format!("S{}", sq), cq = cq, lim = limit);
+                    programs.push((
+                        format!("S{sq} = {step}\nFOR C{cq} = {start} TO {limit} STEP S{sq}\nN% = N% + 1\nIF N% >= 4 THEN GOTO Done\nNEXT\nDone:\nT{cq} = C{cq}\n", sq = sq, step = step, cq = cq, start = start, limit = limit),
+                        vec![],
+                        "for-matrix",
+                    ));
+                    programs.push((
+                        format!("FOR C{cq} = {start} TO {limit} STEP {step}\nN% = N% + 1\nIF N% >= 4 THEN GOTO Done\nNEXT\nDone:\nT{cq} = C{cq}\n", cq = cq, start = start, limit = limit, step = step),
+                        vec![],
+                        "for-matrix",
+                    ));
+                    let _ = body;
+                }
+            }
+        }
+    }
     // 3d. READ and INPUT conversions
     let data_items = ["0", "1", "-1", "1.5", "2.5", "-2.5", "32767", "32768", "-32768", "-32769", "32767.5", "2147483647",
         "2147483648", "-2147483648", "-2147483649", "2147483647.5#", "10000000000", "16777217", "99999999999", ".5", "-.5",
